@@ -712,6 +712,42 @@ fn yaml_flow(v: &V, rng: &mut Option<Rng>, out: &mut String) -> bool {
     }
 }
 
+/// A string written as a literal block scalar (`|`, `|-`, `|+` by its trailing line breaks) at the given
+/// indentation, or None when literal style cannot hold it as it is (no line break in it, characters that need
+/// escapes, a first line that is empty or starts with a blank - that would need an indentation indicator).
+fn yaml_literal(s: &str, indent: usize) -> Option<String> {
+    let body = s.trim_end_matches('\n');
+    if !s.contains('\n') || body.is_empty() || body.starts_with([' ', '\n', '\t']) {
+        return None;
+    }
+    if !s.chars().all(|c| c == '\n' || (0x20..0x7f).contains(&(c as u32)) || ((0xa1..0xd800).contains(&(c as u32)) && c != '\u{2028}' && c != '\u{2029}')) {
+        return None;
+    }
+    // (a line made of blanks only would be ambiguous with the indentation: leave those to the quoted styles)
+    if body.split('\n').any(|l| !l.is_empty() && l.trim_matches(' ').is_empty()) {
+        return None;
+    }
+    let trailing = s.len() - body.len();
+    let mut out = String::from(match trailing {
+        0 => "|-",
+        1 => "|",
+        _ => "|+",
+    });
+    out.push('\n');
+    let pad = " ".repeat(indent);
+    for l in body.split('\n') {
+        if !l.is_empty() {
+            out.push_str(&pad);
+            out.push_str(l);
+        }
+        out.push('\n');
+    }
+    for _ in 1..trailing {
+        out.push('\n');
+    }
+    Some(out)
+}
+
 fn yaml_block(v: &V, indent: usize, rng: &mut Option<Rng>, out: &mut String) -> bool {
     // Writes the node starting at the current position (after "- " or "key:"), ends with '\n'.
     let flow = rng.as_mut().map(|r| r.chance(1, 4)).unwrap_or(false);
@@ -732,6 +768,10 @@ fn yaml_block(v: &V, indent: usize, rng: &mut Option<Rng>, out: &mut String) -> 
                         if !yaml_block(x, indent + 2, rng, out) {
                             return false;
                         }
+                    }
+                    V::Str(t) if rng.as_mut().map(|r| r.chance(1, 2)).unwrap_or(false) && yaml_literal(t, indent + 2).is_some() => {
+                        out.push(' ');
+                        out.push_str(&yaml_literal(t, indent + 2).unwrap());
                     }
                     _ => {
                         out.push(' ');
@@ -769,6 +809,10 @@ fn yaml_block(v: &V, indent: usize, rng: &mut Option<Rng>, out: &mut String) -> 
                         if !yaml_block(x, indent + 2, rng, out) {
                             return false;
                         }
+                    }
+                    V::Str(t) if rng.as_mut().map(|r| r.chance(1, 2)).unwrap_or(false) && yaml_literal(t, indent + 2).is_some() => {
+                        out.push(' ');
+                        out.push_str(&yaml_literal(t, indent + 2).unwrap());
                     }
                     _ => {
                         out.push(' ');
